@@ -226,7 +226,7 @@ module Make (F : sig val focus : string end) = struct
   let armed th = match th.t_tm with Some { tm_armed = Some f; _ } -> Some (iz f) | _ -> None
 
   let fresh_deadline rng c =
-    let base = now c + [| -20; -3; 0; 3; 6; 12; 25; 60; 200; 1000; 5000; 60; 200 |].(Random.State.int rng 13) in
+    let base = now c + [| -20; -3; 0; 3; 6; 12; 25; 60; 200; 1000; 5000; 60; 200; -4000000000000000000; 4000000000000000000 |].(Random.State.int rng 15) in
     let rec free d = if List.mem d c.used then free (d + 1) else d in
     free base
 
@@ -260,7 +260,8 @@ module Make (F : sig val focus : string end) = struct
           else if is_park th.t_pc then (if Random.State.int rng 24 < c.pcancel then [DCancel (nat_of_int t); DCancel (nat_of_int t)] else [])
           else (if Random.State.int rng 100 < c.pcancel then [DCancel (nat_of_int t)] else [])) thr in
       (* clock: small steps, or exactly up to the next interesting instant (a timer / a deadline) *)
-      let instants = List.filter (fun d -> d > now c)
+      (* (the clock is never moved to the extreme deadlines +-4e18: the real virtual clock is an int64) *)
+      let instants = List.filter (fun d -> d > now c && d - now c < 1000000000000000)
           (List.concat_map (fun (_, th) -> match armed th with Some f -> [f] | None -> []) thr @ List.map snd c.mirror) in
       let ticks = (if Random.State.int rng 5 = 0 then [DTick (zi (1 + Random.State.int rng 3))] else []) @
                   (match instants with [] -> [] | l when Random.State.int rng 6 = 0 ->
@@ -281,7 +282,7 @@ module Make (F : sig val focus : string end) = struct
             | (DCaseSig0 | DSel0 | DDefault0 | DLock0 | DPeek0 | DSwitch | DDelay | DIfDelay | DSigCh0 | Sc1 | Sc2 | Sc3 | DIfTimer | DReset), Some f
               when Random.State.int rng 2 = 0 ->
               (* the owner of an armed timer is outside its select: deliver the tick now (stale tick) *)
-              if f <= now c then [DFire (nat_of_int t)] else [DTick (zi (f - now c))]
+              if f <= now c then [DFire (nat_of_int t)] else if f - now c < 1000000000000000 then [DTick (zi (f - now c))] else []
             | (DCaseTimer | DLock1), _ when Random.State.int rng 2 = 0 ->
               (* woken by its timer, not yet re-locked: let the others change the head first *)
               List.concat_map (fun (t2, th2) -> if t2 <> t && not (is_park th2.t_pc) then [DStep (nat_of_int t2, O)] else []) thr
